@@ -9,7 +9,7 @@ import os, glob, collections
 from vlib import coq, rust
 from vlib.core import NCPU, ROOT, REPO
 from props.c04 import corpus_files, short as short04
-from props import c03_payload
+from props import c03_payload, c03_ccp
 
 LOWER = ["lower-init-aggr"]
 O0_MID = ["fn-dedup-debug", "inline", "globals-dce", "dce"]
@@ -25,6 +25,8 @@ OPT = ["mem2reg", "sroa", "inline", "const-folding", "ccp", "simplify-cfg", "glo
 
 
 def short(f):
+    if "/ccp/ccp_" in f: return "ccp/" + os.path.basename(f)
+    if "/corpus/C03/ccp_ir/" in f: return "c03ccp/" + os.path.basename(f)
     if "/payload/pl_" in f: return "payload/" + os.path.basename(f)
     if "/corpus/C03/" in f: return "c03/" + os.path.basename(f)
     return short04(f)
@@ -60,6 +62,16 @@ def variants(rng, quick):
         vs.append(("%s@end" % x, BASE + [x]))
     vs.append(("demote-early", LOWER + DEMOTE + O0_MID + DEMOTE + TAIL))
     vs.append(("demote-twice", LOWER + O0_MID + DEMOTE + DEMOTE + TAIL))
+    # passes BEFORE inlining (function parameters are still unknown values there): ccp after the passes that create its
+    # typical input (mem2reg, simplify-cfg unlinking empty blocks), and random neighbourhoods
+    rest = O0_MID + DEMOTE + TAIL
+    pre = ["mem2reg", "simplify-cfg", "dce", "cse", "const-folding", "sroa", "ccp"]
+    for k, lst in enumerate([["ccp"], ["mem2reg", "ccp"], ["mem2reg", "simplify-cfg", "ccp"], ["simplify-cfg", "ccp", "simplify-cfg"],
+                             ["mem2reg", "simplify-cfg", "ccp", "const-folding", "simplify-cfg", "dce"], ["mem2reg", "simplify-cfg", "cse", "ccp", "cse"]]):
+        vs.append(("pre-inline%d" % k, LOWER + lst + rest))
+    for k in range(4 if quick else 40):
+        lst = [rng.choice(pre) for _ in range(rng.randint(0, 3))] + ["ccp"] + [rng.choice(pre) for _ in range(rng.randint(0, 2))]
+        vs.append(("pre-inline-rand%d" % k, LOWER + lst + rest))
     for k in range(6 if quick else 60):
         mid = [rng.choice(OPT) for _ in range(rng.randint(2, 8))]
         end = [rng.choice(OPT) for _ in range(rng.randint(0, 3))]
@@ -206,6 +218,9 @@ def run(ctx):
     scripts = [f for f in c03 + ir_gen if open(f).read(200).lstrip().startswith("script")]
     if quick: scripts = c03[:14] + [f for f in scripts if "/gen/" in f] + rng.sample([f for f in scripts if "/irgen/" in f], 25)
     scripts += [f for f in payload if open(f).read(20).startswith("script")]
+    # conditional-constant-propagation shape family: IR text written now + compiled Sway scripts (corpus/C03/ccp_src)
+    ccp_files = c03_ccp.write_all(os.path.join(ctx.work, "ccp")) + sorted(glob.glob(os.path.join(ROOT, "corpus/C03/ccp_ir/*.ir")))
+    scripts += ccp_files
     vs = variants(rng, quick)
     lines, meta = [], {}
     for f in scripts:
